@@ -143,10 +143,15 @@ def cls_efforts(rnd):
         return m, text
     if k < 0.45 and k >= 0.35:
         # numbers with several hundred digits (float('inf')) where a duration or a count is expected
-        big9 = "9" * rnd.choice([310, 400])
-        what = rnd.randrange(5)
-        if what == 0:
-            text = re.sub(r"effort \d+(min|h|d)", "effort %sh" % big9, text, count=1)
+        big9 = rnd.choice(["9" * 310, "9" * 400, "1" + "0" * 305, "9" * 308])     # infinite as a float, or infinite after the unit conversion
+        what = rnd.randrange(7)
+        unit = rnd.choice(["h", "h", "w", "y"])
+        if what == 5:
+            text = re.sub(r'(timezone "Etc/UTC"\n)', r"\1  timingresolution %s\n" % rnd.choice(["3000000d", "99999999h", "5256000min"]), text, count=1)
+        elif what == 6:
+            text = re.sub(r'(project \w+ "P" )\S+ \+\S+', r"\g<1>9999-12-31-23:00 +59min", text, count=1)
+        elif what == 0:
+            text = re.sub(r"effort \d+(min|h|d)", "effort %s%s" % (big9, unit), text, count=1)
         elif what == 1:
             text = re.sub(r"(depends [^\n{]+?)(\n| \{[^\n]*\n)", r"\1 { gapduration %sh }\n" % big9, text, count=1)
         elif what == 2:
